@@ -460,6 +460,7 @@ type SpecFn struct {
 	Ensures   []Clause
 	Recursive bool
 	Opaque    bool
+	Hidden    bool // the definition is only visible to lemmas that `reveal` it (recursive definitions make solvers unfold without end)
 	Inline    bool // a macro: the body is evaluated in the caller's state (may read memory)
 	Pkg       string
 }
@@ -475,6 +476,7 @@ type LemmaSpec struct {
 	Pkg      string
 	Calls    []LemmaCall
 	Applies  []Clause // ground instances of other lemmas used in the proof
+	Reveal   []string // hidden spec functions whose definition this proof may use
 }
 
 // LemmaCall is "call r = F(args)" inside a lemma: F is applied by contract.
@@ -518,7 +520,7 @@ func newContractSet() *ContractSet {
 var clauseKeywords = map[string]bool{
 	"requires": true, "ensures": true, "modifies": true, "loop": true, "invariant": true,
 	"decreases": true, "func": true, "extern": true, "spec": true, "lemma": true, "pure": true,
-	"inline": true, "panics": true, "trusted": true, "induction": true, "use": true, "def": true, "call": true, "apply": true, "apply_head": true, "apply_exit": true, "opaque": true, "embedded": true, "guarded": true, "callback": true, "monitor": true, "check_at_store": true, "assume_invariant": true, "residual": true, "logged": true, "may_panic": true, "recovers": true,
+	"inline": true, "panics": true, "trusted": true, "induction": true, "use": true, "def": true, "call": true, "apply": true, "apply_head": true, "apply_exit": true, "opaque": true, "embedded": true, "guarded": true, "callback": true, "monitor": true, "check_at_store": true, "assume_invariant": true, "residual": true, "hidden": true, "reveal": true, "logged": true, "may_panic": true, "recovers": true,
 }
 
 // parseContractText parses the body of one or more /*@ ... @*/ blocks (already
@@ -816,6 +818,14 @@ func (cs *ContractSet) parseContractText(text, pkgPath, file string) error {
 		case "logged":
 			if curF != nil {
 				curF.Logged = true
+			}
+		case "hidden":
+			if curS != nil {
+				curS.Hidden = true
+			}
+		case "reveal":
+			if curLem != nil {
+				curLem.Reveal = append(curLem.Reveal, strings.Fields(strings.ReplaceAll(rest, ",", " "))...)
 			}
 		case "may_panic":
 			if curF != nil {
